@@ -114,6 +114,8 @@ class Sys(e2.DevSys):
             acts.append(("evidence", 0))
             if "nack-sub" not in getattr(self, "extra", ()):
                 acts.append(("nack-sub", 0))  # ... and a Subscribe of the requester that is refused (unknown eventgroup)
+            if "svc-add" not in getattr(self, "extra", ()) and self.started:
+                acts.append(("svc-add", 0))  # ... and the application announces one more, unrelated, instance
         if c.get("lifecycle") and nfind == 0:
             if self.started:
                 acts += [("ann-stop",), ("stop+find", 0), ("stop+find", 1), ("connlost",)]
@@ -157,6 +159,11 @@ class Sys(e2.DevSys):
             self.started = False
             self.stopped_at = now
             self.prot.connection_lost(None)
+        elif act[0] == "svc-add":
+            self.extra = getattr(self, "extra", ()) + ("svc-add",)
+            extra_inst = sd.ServiceInstance(cfg_.Service(self.s2 + 5, 9, 1, 0, eventgroups=frozenset({5})), sd.ServerServiceListener(),
+                                            self.prot.announcer, self.t)
+            self.prot.announcer.announce_service(extra_inst)
         elif act[0] == "nack-sub":
             self.extra = getattr(self, "extra", ()) + ("nack-sub",)
             self.session += 1
@@ -310,9 +317,9 @@ def restrict(thorough, cfg, devs, p, k):
             return p[2][0] in ("find", "ann-start") and p[0] - devs[0][0] <= (1.2 if thorough else 0.3)
         if first == "find":
             # a stop shortly after a find (while the delayed answer is pending)
-            if p[2][0] == "nack-sub" and not thorough:
+            if p[2][0] in ("nack-sub", "svc-add") and not thorough:
                 return p[0] - devs[0][0] <= 0.1 and devs[0][0] <= 1.3 and tuple(devs[0][2][2:]) == tuple(cfg["finds"][0])
-            if p[2][0] in ("ann-stop", "connlost", "evidence", "svc-stop", "nack-sub"):
+            if p[2][0] in ("ann-stop", "connlost", "evidence", "svc-stop", "nack-sub", "svc-add"):
                 return p[0] - devs[0][0] <= 0.1
             # a unicast request while the delayed answer to a multicast request is pending: its answer overtakes
             return p[2][0] == "find" and devs[0][2][1] == 1 and p[2][1] == 0 and p[0] - devs[0][0] <= 0.07 \
